@@ -336,7 +336,7 @@ func cmdDrive(args []string) {
 	switch *prop {
 	case "C14":
 		must = []string{"fired.short+err", "fired.zero+err", "fired.full+err", "fired.always", "fired.transient", "fired.flaky", "fired.short+nil", "probe.fault_beyond_4096", "probe.fault_at_offset_0", "probe.fault_on_last_sink_call", "control_runs",
-			"hist.c14_faulted_ops_judged", "sched.c14_ops_judged", "sched.c14_faults_fired", "probe.sweep_faulted", "probe.length_sweep_faulted", "errkind.temporary", "errkind.timeout", "errkind.shortwrite", "errkind.eof", "errkind.closedpipe", "errkind.epipe", "errkind.deadline", "errkind.slice", "errkind.mapstruct", "errkind.joined"}
+			"hist.c14_faulted_ops_judged", "sched.c14_ops_judged", "sched.c14_faults_fired", "probe.sweep_faulted", "probe.length_sweep_faulted", "errkind.temporary", "errkind.timeout", "errkind.shortwrite", "errkind.eof", "errkind.closedpipe", "errkind.epipe", "errkind.deadline", "errkind.slice", "errkind.mapstruct", "errkind.joined", "errkind.emptymsg", "errkind.hugemsg"}
 	case "C06":
 		must = []string{"probe.rerenders", "probe.stale_tree_renders", "probe.ops_after_failed_op", "probe.same_doc_back_to_back", "probe.renders_by_other_renderer", "probe.renders_after_other_renderer", "probe.gap_runs", "probe.gap_runs_storm_of_failing_calls", "probe.near_miss_runs", "probe.histories_longer_than_255_ops", "probe.cfg_error_returning_node_renderers", "op.Convert", "op.PkgConvert", "op.Parse", "op.Render", "op.ParseRender"}
 	case "C15":
